@@ -11,15 +11,15 @@
 (*    the next space, unless escaped with "\"."                            *)
 (*   - leading / trailing blanks are ignored; a blank run followed by "-"  *)
 (*     ends a part and starts the next one ("-I -L" is two parts, "-" is a *)
-(*     part of its own);                                                    *)
+(*     part of its own);                                                   *)
 (*   - "\" followed by a blank puts that blank into the content;           *)
-(*   - example table only (flag `lenient`): an unescaped blank run inside   *)
-(*     the content that is not followed by "-" is kept as ONE space         *)
-(*     ("-I/a b" is one part).                                              *)
+(*   - example table only (flag `lenient`): an unescaped blank run inside  *)
+(*     the content that is not followed by "-" is kept as ONE space        *)
+(*     ("-I/a b" is one part).                                             *)
 (* The documentation gives "\" a meaning only before a blank.  Before any  *)
 (* other character two readings are defensible and both are computed:      *)
-(*   doc    the backslash is an ordinary character (kept);                  *)
-(*   posix  it quotes the next character (what pkg-config itself emits).    *)
+(*   doc    the backslash is an ordinary character (kept);                 *)
+(*   posix  it quotes the next character (what pkg-config itself emits).   *)
 (* Where they agree the result is the only acceptable one, else either.    *)
 (* A string whose first non-blank character is not "-" (or "- x") is       *)
 (* outside the documented domain (`out`): no part list is prescribed, only *)
@@ -27,13 +27,13 @@
 (* nothing may be invented) - "never silently altered".                    *)
 (*                                                                         *)
 (* Mode "split": every string of length <= MaxLen.                         *)
-(* Mode "roundtrip": every list of <= MaxArgs flags "-" f content with      *)
-(*   |f content| <= MaxArgLen; the documented producer escapes every blank  *)
-(*   of the content with a backslash and joins the flags with one space;    *)
-(*   law RoundTrip: Split(Quote(a)) = a on the representable domain         *)
-(*   (f is one ASCII character, not a blank; the content does not end with  *)
-(*   a backslash, which                                                     *)
-(*   the documented escape cannot protect from the following separator).    *)
+(* Mode "roundtrip": every list of <= MaxArgs flags "-" f content with     *)
+(*   |f content| <= MaxArgLen; the documented producer escapes every blank *)
+(*   of the content with a backslash and joins the flags with one space;   *)
+(*   law RoundTrip: Split(Quote(a)) = a on the representable domain        *)
+(*   (f is one ASCII character, not a blank; the content does not end with *)
+(*   a backslash, which the documented escape cannot protect from the      *)
+(*   following separator).                                                 *)
 (***************************************************************************)
 EXTENDS Integers, Sequences, FiniteSets, TLC, Json
 
